@@ -481,7 +481,7 @@ func calleeName(call *ssa.Call) string {
 func init() {
 	core.Register(&core.Rule{
 		Name: "R-NOSKIP",
-		Doc: "After a rejected candidate the scan resumes at the very next byte. In the candidate finders of package prefilter (the implementations of Prefilter.Find/FindMatch) a loop that re-slices the haystack by an accumulated offset and searches the rest again must advance that offset by exactly (position of the rejected candidate in the window) + 1: over the linear domain, the back-edge value of the offset minus its previous value minus the candidate position is the constant 1. Resuming behind the fingerprint, behind the literal or at any other computed distance steps over a literal that starts inside the skipped bytes (a nibble-mask false positive at p followed by a real occurrence at p+1), and because these prefilters report themselves complete nothing re-checks the gap. Necessary for C16 (Find returns the smallest position at or after the offset; a candidate loop can never step over the start of a real match).",
+		Doc: "After a rejected candidate the scan resumes at the very next byte. In the candidate finders of package prefilter (the implementations of Prefilter.Find/FindMatch) and the substring searchers of package simd (functions over a haystack and a needle) a loop that re-slices the haystack by an accumulated offset and searches the rest again must advance that offset by exactly (position of the rejected candidate in the window) + 1: over the linear domain, the back-edge value of the offset minus its previous value minus the candidate position is the constant 1. Resuming behind the fingerprint, behind the literal or at any other computed distance steps over a literal that starts inside the skipped bytes (a nibble-mask false positive at p followed by a real occurrence at p+1), and because these prefilters report themselves complete nothing re-checks the gap. Necessary for C16 (Find returns the smallest position at or after the offset; a candidate loop can never step over the start of a real match).",
 		Min: 4, NeedSSA: true,
 		Run: func(p *core.Prog) *core.RuleResult {
 			res := &core.RuleResult{}
@@ -490,8 +490,23 @@ func init() {
 				res.Fatal = append(res.Fatal, errs)
 				return res
 			}
+			// the substring searchers of package simd (haystack and needle) run the same kind of candidate loop
+			for _, fn := range p.SrcFuncs() {
+				if ownPkg(fn) == nil || !strings.HasSuffix(ownPkg(fn).Path(), "/simd") || strings.HasSuffix(p.File(fn.Pos()), "_test.go") {
+					continue
+				}
+				nb := 0
+				for _, prm := range fn.Params {
+					if isByteSlice(prm.Type()) {
+						nb++
+					}
+				}
+				if nb >= 2 && fn.Signature.Results().Len() == 1 && isIntType(fn.Signature.Results().At(0).Type()) {
+					subjects = append(subjects, fn)
+				}
+			}
 			for _, fn := range subjects {
-				if ownPkg(fn) == nil || !strings.HasSuffix(ownPkg(fn).Path(), "/prefilter") {
+				if ownPkg(fn) == nil || !(strings.HasSuffix(ownPkg(fn).Path(), "/prefilter") || strings.HasSuffix(ownPkg(fn).Path(), "/simd")) {
 					continue
 				}
 				var hay *ssa.Parameter
